@@ -2,14 +2,15 @@
 # usage: lib/confirm.sh <worktree> <outdir>     confirms a sub-agent's change in its scratch worktree:
 #   demo passes on HEAD, fails with patch.diff applied, the repository's suite passes twice with it.
 # Appends the result to seeded/confirm-log.txt.  Leaves the worktree at HEAD.
-wt="$1"; out="$2"; log="$(dirname "$0")/../seeded/confirm-log.txt"
+wt="$1"; out="$2"; log="$(cd "$(dirname "$0")/.." && pwd)/seeded/confirm-log.txt"
 export CARGO_NET_OFFLINE=true
 cd "$wt" || exit 2
 git checkout -q -- . ; git status --short | grep -v '^??' && { echo "worktree dirty"; exit 2; }
 demo="$(cat "$out/demo_path.txt" | tr -d ' \n')"
 mkdir -p "$(dirname "$demo")"; cp "$out/demo.rs" "$demo"
 crate="$(echo "$demo" | cut -d/ -f1)"; tname="$(basename "$demo" .rs)"
-run_demo() { cargo test -p "$crate" --test "$tname" --offline -j 8 2>&1 | grep -E '^test result|^error: test failed' | tr '\n' ' '; }
+pk="$crate"; feat="--features fastrace/enable"; [ "$crate" = fastrace ] && { pk="fastrace@0.7.9"; feat=""; }
+run_demo() { cargo test -p "$pk" $feat --test "$tname" --offline -j 8 2>&1 | grep -E '^test result|^error: test failed' | tr '\n' ' '; }
 {
 echo "== $(basename "$wt") $(basename "$out") demo=$demo"
 echo "  without: $(run_demo)"
